@@ -245,12 +245,10 @@ def step (s : St) (w : List String) : St × String :=
     match parseChar sp, (els.splitOn ",").mapM parseText with
     | some sp, some es =>
       let bin := mode = "b"
-      let p0 : Path := { sep := sp, assign := 0, binary := bin }
+      let p0 : Path := emptyPath sp 0 bin
       -- add every element: characters one by one (kept by `valid`), then `add`
       let addElem := fun (acc : Path × String) (e : List Byte) =>
-        let p1 := e.foldl (fun (p : Path) c =>
-          let q := (pathAddChar p c).1
-          match pathValid q with | .ok (r, _) => r | _ => q) acc.1
+        let p1 := e.foldl pushChar acc.1
         match pathAdd p1 e.length with
         | .ok p2 => (p2, acc.2 ++ "+")
         | _ => (p1, acc.2 ++ "E")
@@ -339,9 +337,7 @@ def step (s : St) (w : List String) : St × String :=
     | some sp, some es =>
       let p0 : Path := { sep := sp, assign := 0 }
       let addElem := fun (acc : Path × String) (e : List Byte) =>
-        let p1 := e.foldl (fun (p : Path) c =>
-          let q := (pathAddChar p c).1
-          match pathValid q with | .ok (r, _) => r | _ => q) acc.1
+        let p1 := e.foldl pushChar acc.1
         match cxxPathAdd p1 e.length with
         | .ok p2 => (p2, acc.2 ++ "+")
         | _ => (p1, acc.2 ++ "E")
